@@ -206,6 +206,11 @@ fn shim_str_rsplit_once_char<'a>(s: &'a str, c: char) -> (r: Option<(&'a str, &'
 fn shim_str_strip_prefix_char<'a>(s: &'a str, c: char) -> (r: Option<&'a str>) { s.strip_prefix(c) }
 #[verifier::external_body]
 fn shim_str_parse_usize(s: &str) -> (r: Option<usize>) ensures r == spec_parse_usize(sb(s)) { s.parse().ok() }
+// `s.parse::<u32>().ok()`: the unsigned parsers accept the same strings; the narrower one fails on values that do not fit (std: FromStr for unsigned integers)
+#[verifier::external_body]
+fn shim_str_parse_u32(s: &str) -> (r: Option<u32>)
+    ensures r == (match spec_parse_usize(sb(s)) { Some(v) => if v <= 0xffff_ffffusize { Some(v as u32) } else { None::<u32> }, None => None::<u32> }),
+{ s.parse::<u32>().ok() }
 #[verifier::external_body]
 fn shim_str_contains_char(s: &str, c: char) -> (r: bool) requires is_ascii_char(c), ensures r == sb(s).contains(c as u8) { s.contains(c) }
 
